@@ -209,8 +209,13 @@ def pubHex (s : St) (k : Nat) : String := ((s.pubs.find? (·.1 == k)).map (·.2)
 
 /-- compare the observation suffix `sn= se= rn= re= hl= bl=` with the model. -/
 def checkObs (s : St) (m : Mach) (obs : List String) (op : String) : IO St := do
-  let want := s!"sn={m.snd.cs.nonce} se={m.sEpoch} rn={m.rcv.nonce} re={m.rEpoch} hl={m.snd.hdr.length} bl={m.snd.body.length}"
-  let got := s!"sn={(kvNat? obs "sn").getD 0} se={(kvNat? obs "se").getD 0} rn={(kvNat? obs "rn").getD 0} re={(kvNat? obs "re").getD 0} hl={(kvNat? obs "hl").getD 0} bl={(kvNat? obs "bl").getD 0}"
+  -- `mid=1`: the line was produced while a read of the same machine was in progress (full
+  -- duplex); its receive counters are in flux and are compared on the read's own line
+  let mid := kv? obs "mid" == some "1"
+  let want := if mid then s!"sn={m.snd.cs.nonce} se={m.sEpoch} hl={m.snd.hdr.length} bl={m.snd.body.length}"
+    else s!"sn={m.snd.cs.nonce} se={m.sEpoch} rn={m.rcv.nonce} re={m.rEpoch} hl={m.snd.hdr.length} bl={m.snd.body.length}"
+  let got := if mid then s!"sn={(kvNat? obs "sn").getD 0} se={(kvNat? obs "se").getD 0} hl={(kvNat? obs "hl").getD 0} bl={(kvNat? obs "bl").getD 0}"
+    else s!"sn={(kvNat? obs "sn").getD 0} se={(kvNat? obs "se").getD 0} rn={(kvNat? obs "rn").getD 0} re={(kvNat? obs "re").getD 0} hl={(kvNat? obs "hl").getD 0} bl={(kvNat? obs "bl").getD 0}"
   let s := { s with maxEpoch := max s.maxEpoch (max m.sEpoch m.rEpoch) }
   if want == got then return s else mismatch s s!"{op} mach={m.id}: model [{want}] impl [{got}]"
 
@@ -298,8 +303,9 @@ def monitorReadFail (s : St) (m : Mach) (p : Pipe) (res : String) (consumed : Bo
   return (s, { m with readFailed := true })
 
 def noteObs (m : Mach) (obs : List String) : Mach :=
-  { m with implPend := (kvNat? obs "hl").getD 0 + (kvNat? obs "bl").getD 0 > 0,
-           implRn := (kvNat? obs "rn").getD 0, implRe := (kvNat? obs "re").getD 0 }
+  let m := { m with implPend := (kvNat? obs "hl").getD 0 + (kvNat? obs "bl").getD 0 > 0 }
+  if kv? obs "mid" == some "1" then m
+  else { m with implRn := (kvNat? obs "rn").getD 0, implRe := (kvNat? obs "re").getD 0 }
 
 def dirty (s : St) (pid : Nat) : St := setPipe s { getPipe s pid with clean := false }
 
@@ -801,6 +807,42 @@ def step (s : St) (line : String) : IO St := do
       s ← monitor s "delivered-not-sent" s!"Conn.Read returned bytes different from those written ({res})"
     else s := { s with delivered := s.delivered + sentChunks.length }
     return s
+  | "cnext" :: who :: _ =>
+    -- one record of the message written by `who`, read by the other side through
+    -- ReadNextHeader + ReadNextBody (possibly while that side was writing itself)
+    let s := { s with ops := s.ops + 1 }
+    let wid := if who == "i" then 1 else 2
+    let rid := if who == "i" then 2 else 1
+    let m0 := getMach s rid
+    let p0 := getPipe s wid
+    let pending := ((s.connSent.find? (·.1 == who)).map (·.2)).getD []
+    let (rh, c1, w1) := readHeader m0.rcv p0.buf
+    let (model, c2, w2) : String × CipherState × List WByte := match rh with
+      | .error e => (rErrStr e, c1, w1)
+      | .ok n =>
+        match readBody c1 n w1 with
+        | (.ok d, c2, w2) => (s!"ok len={d.len} val={d.val % 2 ^ 64}", c2, w2)
+        | (.error e, c2, w2) => (rErrStr e, c2, w2)
+    let mut s := setPipe (setMach s (m0.withRcv c2)) { p0 with buf := w2 }
+    let impl := if res0 == "ok" then
+        let len := (kvNat? res "len").getD 0
+        s!"ok len={len} val={parseVal len ((kv? res "val").getD "0") % 2 ^ 64}"
+      else res0
+    if impl != model then s ← mismatch s s!"cnext {who}: model={model} impl={impl}"
+    -- monitor: the k-th record read is the k-th record written; an unaltered stream is not refused
+    match pending with
+    | w :: rest =>
+      let want := s!"ok len={w.len} val={w.val % 2 ^ 64}"
+      if res0 == "ok" then
+        if impl != want then
+          s ← monitor s "delivered-not-sent" s!"Conn {who}: record delivered {impl}, written {showVal w}"
+        else s := { s with delivered := s.delivered + 1 }
+      else
+        s ← monitor s "clean-stream-rejected" s!"Conn {who}: a completely written, unaltered record was refused ({res0}) while the reading side was sending"
+      return { s with connSent := (who, rest) :: s.connSent.filter (·.1 != who) }
+    | [] =>
+      if res0 == "ok" then s ← monitor s "delivered-not-sent" s!"Conn {who}: record delivered {impl}, nothing was written"
+      return s
   | [] => return s
   | _ => mismatch s s!"unparsed line: {line.take 60}"
 
